@@ -111,8 +111,20 @@ Definition spec_eligible_strict (c : compiled) (ip : list N) : bool :=
   | [] => true
   | _ => existsb (fun n => spec_in_net n ip && net_contains n ip) (c_clients c)
   end.
-Definition spec_excluded_a (c : compiled) (v4 : list N) : bool :=
-  existsb (fun n => spec_in_net n v4) (c_excl_a c).
+(* IPv4 ranges that must not be translated through the well-known prefix
+   when the operator configured none: the not-globally-reachable entries of
+   the IANA IPv4 special-purpose registry (RFC 6052 3.1, RFC 6890) *)
+Definition spec_default_excluded_v4 : list ipnet :=
+  [ mk_net [0;0;0;0] 8 4; mk_net [10;0;0;0] 8 4; mk_net [100;64;0;0] 10 4; mk_net [127;0;0;0] 8 4;
+    mk_net [169;254;0;0] 16 4; mk_net [172;16;0;0] 12 4; mk_net [192;0;0;0] 24 4; mk_net [192;0;2;0] 24 4;
+    mk_net [192;88;99;0] 24 4; mk_net [192;168;0;0] 16 4; mk_net [198;18;0;0] 15 4; mk_net [198;51;100;0] 24 4;
+    mk_net [203;0;113;0] 24 4; mk_net [224;0;0;0] 4 4; mk_net [240;0;0;0] 4 4; mk_net [255;255;255;255] 32 4 ].
+Definition spec_excluded_a (cf : config) (v4 : list N) : bool :=
+  existsb (fun n => spec_in_net n v4)
+    (match cf_excl_a cf with
+     | None => spec_default_excluded_v4
+     | Some _ => c_excl_a (compile cf)
+     end).
 Definition spec_excluded_aaaa (c : compiled) (ip : list N) : bool :=
   existsb (fun n => spec_in_net n ip) (c_excl_aaaa c).
 
